@@ -1637,7 +1637,7 @@ def expPart (rest : Input) : Int × Input :=
         | _ => (false, r)
       let ed := r1.takeWhile isDigit
       if ed.isEmpty then (0, rest)
-      else ((if eneg then -(digitsVal ed : Int) else (digitsVal ed : Int)), r1.drop ed.length)
+      else ((if eneg then -(expDigitsVal ed : Int) else (expDigitsVal ed : Int)), r1.drop ed.length)
     else (0, rest)
   | [] => (0, rest)
 
@@ -1647,7 +1647,6 @@ theorem parseFloat_parts (i : Input) :
       match mantPart (signPart i).2.2 with
       | some (ip, fp, rest) =>
         let exp := (expPart rest).1
-        let exp := if exp > 100000 then 100000 else if exp < -100000 then -100000 else exp
         some (decToFloat (signPart i).1 (digitsVal (ip ++ fp)) (exp - fp.length), (expPart rest).2)
       | none =>
         match tagNoCase "nan" i with
